@@ -187,7 +187,6 @@ impl Property for C07 {
         )
             .prop_map(|(depth, backends, ops, positions, other_leaf)| {
                 let backends = if depth == 20 { vec![Optimal, Pm, RlnApi] } else { backends };
-                let ops = ops.into_iter().filter(|o| !matches!(o, Op::Reopen)).collect();
                 Case { tree: TreeCase { depth, backends, ops }, positions, other_leaf }
             })
             .boxed()
@@ -254,6 +253,79 @@ impl Property for C07 {
                     }
                 }
             }
+        }
+        // membership paths of a persistent tree that was closed and reopened (in-memory bookkeeping is
+        // rebuilt from disk): every third case with the persistent backend, reopen steps honoured
+        if !o.failed() && case.tree.backends.contains(&BackendKind::Pm) && case_hash(case) % 3 == 0 && depth <= 10 {
+            o.label("persistent-with-reopen");
+            let base = ctx.tmpdir.join(format!("c07-{:016x}-{:?}", case_hash(case), std::thread::current().id()));
+            let _ = std::fs::remove_dir_all(&base);
+            let c16case = super::c16::Case {
+                depth,
+                cfg: super::c16::StoreCfg { cache: 0, flush_ms: 0, low_space: false, compression: false, path_style: 0 },
+                api: super::c16::Api::Trait,
+                ops: vec![],
+                mode: super::c16::Mode::NoFault,
+            };
+            let mut st = super::c16::Store::new(&c16case, &base);
+            if let Ok(Ok(())) = st.open() {
+                let mut m = TreeModel::new(depth, Fr::from(0u64));
+                let mut ops: Vec<Op> = case.tree.ops.clone();
+                // make sure there is a reopen after the state was built
+                ops.push(Op::Reopen);
+                let mut err: Option<String> = None;
+                for (k, op) in ops.iter().enumerate() {
+                    if matches!(op, Op::Reopen) {
+                        let ok = matches!(st.bm().apply(&ROp::Flush), Some(Ok(Ok(()))));
+                        st.close();
+                        if !ok || !matches!(st.open(), Ok(Ok(()))) {
+                            err = Some(format!("flush + reopen at step {k} failed"));
+                            break;
+                        }
+                    } else {
+                        match step(ctx, st.bm(), &mut m, op, Focus::STATE, false) {
+                            Ok(rep) => {
+                                for s in rep.skipped_known {
+                                    o.exclude(s);
+                                }
+                            }
+                            Err(e) => {
+                                err = Some(format!("step {k}: {e}"));
+                                break;
+                            }
+                        }
+                    }
+                    let (cap, mark) = (m.cap(), m.mark);
+                    for p in case.positions.iter().take(4) {
+                        let i = p.resolve(cap, mark.min(cap - 1)).min(cap - 1);
+                        match light_check(st.bm(), &m, i) {
+                            Ok(n) => o.evals += n,
+                            Err(e) => {
+                                err = Some(format!("after step {k}{}: {e}", if matches!(op, Op::Reopen) { " (reopen)" } else { "" }));
+                                break;
+                            }
+                        }
+                    }
+                    if err.is_some() {
+                        break;
+                    }
+                }
+                if err.is_none() {
+                    let cap = m.cap();
+                    let positions: Vec<usize> = if depth <= 5 { (0..cap).collect() } else { vec![0, cap - 1, cap / 2, cap / 2 - 1] };
+                    for i in positions {
+                        if let Err(e) = check_position(st.bm(), &m, i, pool_value(case.other_leaf), &mut o) {
+                            err = Some(format!("after the final reopen: {e}"));
+                            break;
+                        }
+                    }
+                }
+                if let Some(e) = err {
+                    vfail!(o, "persistent tree with reopen, depth {depth}: {e}");
+                }
+            }
+            st.close();
+            let _ = std::fs::remove_dir_all(&base);
         }
         if high {
             o.label("position>=cap/2");
